@@ -27,6 +27,7 @@ CONSTANTS DocSeq,      \* documents, in the order in which a behaviour may first
           MaxInter,    \* bound on the actions that interleave with one split read
           Acts,        \* enabled action names (configs restrict the alphabet)
           HitSteps,    \* FALSE: a read answered from the cache alone (no effect on the cache) is not a step of a behaviour
+          PurgeRace,   \* TRUE: a purge may land between the query and the prepend of a split read (named deviation, NOTES.md)
           RecordReads  \* FALSE (model checking only): results of uninterrupted reads are not kept in the state,
                        \* ReadCorrectAll evaluates every such read in every state instead
 
@@ -247,9 +248,11 @@ Gap == On("Gap") /\ Free /\ nextSeq <= MaxSeq /\ UNCHANGED impl /\ GhostGap /\ S
 PruneAge(k) ==
   On("PruneAge") /\ Free /\ minLen < maxLen /\ Len(logs) > minLen /\ k \in 1..(Len(logs) - minLen)
   /\ ImplPruneAge(k) /\ GhostQuiet /\ Step([a |-> "PruneAge", k |-> k])
-Purge(d) ==      \* assumptions: no write of d is in flight when it is purged (the code guards that race by TimeReceived),
-                 \* and no query backfill is in flight (a prepend after the purge would re-insert the purged row: NOTES.md)
-  On("Purge") /\ rd = NoRd /\ (\E r \in truth : r.doc = d) /\ (\A p \in pending : p.doc # d)
+Purge(d) ==      \* assumption: no write of d is in flight when it is purged (the code guards that race by TimeReceived).
+                 \* PurgeRace = FALSE additionally assumes that no query backfill is in flight: with PurgeRace = TRUE the
+                 \* prepend after the purge re-inserts the purged row (PurgedNotServed fails - a finding on the real code,
+                 \* see NOTES.md); everything else is proved under PurgeRace = FALSE
+  On("Purge") /\ (IF PurgeRace THEN Free ELSE rd = NoRd) /\ (\E r \in truth : r.doc = d) /\ (\A p \in pending : p.doc # d)
   /\ ImplPurge(d) /\ GhostPurge(d) /\ Step([a |-> "Purge", doc |-> d])
 Recreate ==
   On("Recreate") /\ rd = NoRd /\ (Len(logs) > 0 \/ validFrom # hcs + 1)
@@ -318,6 +321,12 @@ ReadWeak(R, s, lim, ao) ==
   /\ (~ao /\ lim > 0) => Len(R) <= lim
 ReadCorrect ==
   res # NoRes => IF res.clean THEN ReadOK(res.rows, res.s, res.lim, res.ao) ELSE ReadWeak(res.rows, res.s, res.lim, res.ao)
+(* A purged document (no row in the bucket any more, no later write) is not served by any read that starts after the
+   purge completed.  Reads that overlapped the purge (res.clean = FALSE) are exempt. *)
+PurgedDocs == {e.doc : e \in ever} \ {r.doc : r \in truth}
+ServedOK(R) == \A i \in 1..Len(R) : R[i].doc \notin PurgedDocs
+PurgedNotServed == (res # NoRes /\ res.clean) => ServedOK(res.rows)
+PurgedNotServedAll == rd = NoRd => ServedOK(AtomicRead(Cur, TruthSeq, 0, 0, FALSE, maxLen).rows)
 (* model only: every possible read in every reachable state, and the cache it leaves behind *)
 ReadCorrectAll ==
   rd = NoRd =>
